@@ -147,8 +147,7 @@ def converged_vcs(n, p, m, hasQ, pr, info):
     dQ, dA, dG = (by[k]['d'] for k in want)
     mufx = wp.env['self.m_mufx'].t
     H = scaling.held(wp)
-    Ar = [[wp.leaf(f'Ar_{r}_{c}', 'e') for c in range(n)] for r in range(pr)] if p else P['A']
-    br = [wp.leaf('br', r) for r in range(pr)] if p else P['b']
+    Ar, br = scaling.reduced_rows(wp, P, n, p, pr)
     S = lambda f: wp.env[f'{kst}.{f}']
     enum = {nm: val for (ty, nm), val in wp.enums.items() if ty.endswith('solver_status')}
     ok = {'converged', 'unbounded', 'unfeasible'} <= set(enum)
